@@ -37,6 +37,30 @@ Theorem C04_irrelevant_inputs : forall eval, extensional eval -> forall fixed G 
   agree (closure_names G order id) inp1 inp2 ->
   impl_invoke eval fixed G f id inp1 = impl_invoke eval fixed G f id inp2.
 Proof. exact irrelevant_inputs. Qed.
+(* the Spec is a fixed point of the closure body: every node's entry is its closure run over the entries of its requirements *)
+Theorem C04_spec_fixpoint : forall eval, extensional eval -> forall fixed G order id k inp out,
+  topo_ok G order = true -> In id order ->
+  spec_step eval fixed G order k id inp out = body eval fixed G (spec_step eval fixed G order) k id inp out.
+Proof. exact table_fixpoint. Qed.
+(* the first sentence of the property: the value of a decision is its logic evaluated in the scope that overlays its required
+   inputs with the knowledge context (function values) and with each required decision's variable bound to that decision's own
+   value (dec_binds); an input entry named like a knowledge / decision binding replaces it (interpretive choice, see props/c04.py) *)
+Theorem C04_decision_scope : forall eval, extensional eval -> forall fixed G order id name logic rk rd ri callable inp out,
+  topo_ok G order = true -> In id order -> find id G = Some (NDec name logic rk rd ri callable) ->
+  let step := spec_step eval fixed G order in
+  step KDec id inp out =
+  set name (eval (svc_call G step callable)
+                 (zip (inputs_into G ri inp []) (overwrite (zip (knowledge_ctx G step rk inp) (dec_binds G step rd inp)) inp)) logic) out.
+Proof. exact decision_scope. Qed.
+Theorem C04_decision_sees : forall eval, extensional eval -> forall fixed G order rk rd ri inp n, topo_ok G order = true ->
+  let step := spec_step eval fixed G order in
+  let kd := zip (knowledge_ctx G step rk inp) (dec_binds G step rd inp) in
+  lookup n (zip (inputs_into G ri inp []) (overwrite kd inp)) =
+  match (match lookup n (rev (dec_binds G step rd inp)) with Some v => Some v | None => lookup n (knowledge_ctx G step rk inp) end) with
+  | Some v => Some (match lookup n inp with Some v' => v' | None => v end)
+  | None => if mem n (input_names G ri) then Some (getv n inp) else None
+  end.
+Proof. intros eval _. exact (decision_sees eval). Qed.
 (* the evaluator used by the correspondence check meets the assumption, so the theorems apply to what is compared with the code *)
 Theorem C04_teval_ext : extensional teval.
 Proof. exact teval_ext_svc. Qed.
@@ -72,6 +96,9 @@ Print Assumptions C04_invoke_refines.
 Print Assumptions C04_fuel_sufficient.
 Print Assumptions C04_diamond_agree.
 Print Assumptions C04_irrelevant_inputs.
+Print Assumptions C04_spec_fixpoint.
+Print Assumptions C04_decision_scope.
+Print Assumptions C04_decision_sees.
 Print Assumptions C04_teval_ext.
 Print Assumptions C04_refines_teval.
 Print Assumptions C04_irrelevant_inputs_teval.
